@@ -9,7 +9,7 @@
    queried before full and split claims in the farm scenarios).
    Statements only. *)
 From MD.Model Require Import Base Ownable Epoch PoolMath Types PoolManager FarmManager Chain.
-From MD.Proofs Require Import WeightProofs FarmProofs RewardProofs FarmCustody FarmCustodyChain ClaimFrame BankProofs TxFarm.
+From MD.Proofs Require Import WeightProofs FarmProofs RewardProofs FarmCustody FarmCustodyChain ClaimFrame BankProofs TxFarm FarmCustody ClaimSplit NonVacuity.
 
 Theorem C07_reward_formula : forall s f lp recv until lc rs,
   farm_rewards s f lp recv until lc = Ok rs ->
@@ -98,6 +98,45 @@ Theorem C07_claim_transaction_pays_exactly_what_rewards_quotes : forall w sender
     end.
 Proof. exact claim_tx_balances. Qed.
 
+(* SCHEDULE INDEPENDENCE, farm by farm and epoch by epoch. A user whose cursor is at lc claims at u2. Had he claimed at any
+   intermediate epoch u1 first (lc <= u1 <= u2), that claim would have synchronised his weight history (one entry, his latest
+   weight, at u1) and increased the farm's claimed amount by what it paid; then the later claim at u2, computed on that state
+   s1 with that farm record, pays for the remaining epochs exactly the amounts the single claim pays for them: the single
+   claim's list of per-epoch rewards is the concatenation R1 ++ R2 of the two claims' lists.
+   Hypotheses (the class outside the findings F-until / F-first-epoch): all of the user's weight entries for this LP denom
+   lie in [lc, u1+1] - true whenever the previous claim was synchronised at lc and later position changes were made at or
+   before epoch u1 (they are recorded for the following epoch); the contract's own history for the LP denom starts at or
+   before lc+1; the single claim stays within the farm's budget (which the claim's update of the farm enforces). *)
+Theorem C07_one_claim_pays_what_two_claims_pay : forall s f lp recv lc u1 u2 R e0 x0 e1 w1 e0c w0c s1,
+  farm_rewards s f lp recv u2 (Some lc) = Ok R ->
+  lc <= u1 <= u2 -> u1 < U64_MAX ->
+  String.eqb FM recv = false ->
+  w_earliest (fm_weights s) recv lp = Some (e0, x0) -> w_latest (fm_weights s) recv lp = Some (e1, w1) -> lc <= e1 <= u1 + 1 ->
+  w_earliest (fm_weights s) FM lp = Some (e0c, w0c) -> e0c <= lc + 1 ->
+  0 <= f_claimed f -> f_claimed f + sum_snd R <= amount_of (f_asset f) <= U128_MAX ->
+  wsame lp (synced (fm_weights s) recv lp e0 e1 u1 w1) (fm_weights s1) ->
+  exists R1 R2,
+    farm_rewards s f lp recv u1 (Some lc) = Ok R1 /\
+    farm_rewards s1 (with_claimed f (f_claimed f + sum_snd R1)) lp recv u2 (Some u1) = Ok R2 /\
+    R = (R1 ++ R2)%list.
+Proof. exact one_claim_is_two_claims. Qed.
+
+(* the two facts behind it: after a synchronisation at u the user's weight is his latest weight for every later epoch, and
+   the total weight of an epoch does not depend on the epoch the computation starts from *)
+Theorem C07_weight_after_synchronisation : forall ws a lp e0 x0 e1 w1 u e,
+  w_earliest ws a lp = Some (e0, x0) -> w_latest ws a lp = Some (e1, w1) -> u <= e ->
+  address_weight_at (synced ws a lp e0 e1 u w1) a lp (u + 1) e = w1.
+Proof. exact weight_after_sync. Qed.
+
+Theorem C07_total_weight_independent_of_start : forall ws lp e0c w0c start e,
+  w_earliest ws FM lp = Some (e0c, w0c) -> e0c <= start <= e ->
+  contract_weight_at ws lp start e = Ok (Some (cf ws FM lp (epoch_range (e0c + 1) e) w0c)).
+Proof. exact contract_weight_indep. Qed.
+
+(* the hypotheses are met by a real state (kernel-evaluated): cursor 2, claim at 4, intermediate claim at 3, 262 per epoch *)
+Theorem C07_split_example : split_statement.
+Proof. exact split_example. Qed.
+
 Print Assumptions C07_reward_formula.
 Print Assumptions C07_reward_rounding.
 Print Assumptions C07_query_equals_claim_single_lp.
@@ -105,3 +144,7 @@ Print Assumptions C07_claim_moves_cursor.
 Print Assumptions C07_rewards_query_equals_claim_for_any_number_of_lp_tokens.
 Print Assumptions C07_rewards_query_equals_claim_in_every_reachable_world.
 Print Assumptions C07_claim_transaction_pays_exactly_what_rewards_quotes.
+Print Assumptions C07_one_claim_pays_what_two_claims_pay.
+Print Assumptions C07_weight_after_synchronisation.
+Print Assumptions C07_total_weight_independent_of_start.
+Print Assumptions C07_split_example.
